@@ -33,6 +33,13 @@ sha1_b64 = Function('sha1_b64', z3.ArraySort(I, I), I, Str)
 str_to_int = Function('str_to_int', Str, I)
 is_int_str = Function('is_int_str', Str, B)
 text_of_exc = Function('text_of_exc', I, Str)
+accept_text = Function('accept_text', z3.ArraySort(I, I), I, Str)
+
+
+def digest_text(const):
+    """x -> text of base64(sha1(x ++ const)); one uninterpreted symbol per constant"""
+    import hashlib as _h
+    return Function('digest_text_%s' % _h.md5(const).hexdigest()[:10], z3.ArraySort(I, I), I, Str)
 
 
 def used(ip, what):
@@ -355,6 +362,14 @@ def bytes_decode(ip, b, args, kw):
         raise Unsupported('decode encoding')
     arr = b.as_array()
     if enc.text == 'ascii' or errors is not None:
+        src = (b.meta or {}).get('b64_of')
+        if src is not None and (src.meta or {}).get('sha1_of') is not None:
+            data = src.meta['sha1_of']
+            used(ip, 'base64(sha1(x ++ c)).decode("ascii") is a deterministic function of x for a constant c (uninterpreted)')
+            parts = (data.meta or {}).get('concat')
+            if parts and (parts[1].meta or {}).get('const') is not None:
+                return SStr(digest_text(parts[1].meta['const'])(parts[0].as_array(), parts[0].n))
+            return SStr(accept_text(data.as_array(), data.n))
         return SStr(fresh('decoded', Str))
     used(ip, "bytes.decode('utf-8'): succeeds iff well-formed per RFC 3629, returns the exact decoding")
     ok = sval.wf_utf8(arr, b.n)
@@ -377,6 +392,8 @@ def str_method(ip, s, name, args, kw):
         used(ip, 'str.format: returns some str (content not modelled)')
         return SStr(fresh('fmt', Str))
     if name == 'lower':
+        if s.text is not None:
+            return SStr.lit(s.text.lower())
         return SStr(sval.str_lower(s.t))
     if name in ('strip', 'lstrip', 'rstrip'):
         raise Unsupported('str.%s (string code: bounded stand-in only)' % name)
